@@ -319,10 +319,12 @@ CHECKS = {
               "direction (and imaginary unit direction) is the exact difference of the real module, whose forward map is bound "
               "to the specifications by C08/C09/C12; full, single-output and unit seeds. (e) [O] SystemOfEquations, "
               "StaticCondensation (symmetric, complex symmetric, non-symmetric), LinSolve of every class incl. CG, ComplexNorm, "
-              "PNorm(p=2), Scaling: Richardson-extrapolated central differences along class-preserving directions."),
-        note=(TLC_BASE + "; not decided by the specification: EigenSolve for complex / non-symmetric matrices, KSFunction, "
-              "SoftMinMax, PNorm for general p, OverhangFilter at general parameters, MathGeneral (sympy absent), AutoMod (jax "
-              "absent); C04 still exercises their linearity and accumulation"),
+              "PNorm / KSFunction / SoftMinMax (both parameter signs, active set, frozen scaling), Scaling, OverhangFilter at "
+              "default parameters, dense and sparse EigenSolve on generic matrices: Richardson-extrapolated central differences "
+              "along class-preserving directions."),
+        note=(TLC_BASE + "; decided only by numerical observation predicates (not by the specification): EigenSolve on generic / "
+              "non-symmetric matrices, KSFunction, SoftMinMax, PNorm for general p, OverhangFilter at general parameters; not "
+              "executable here: MathGeneral (sympy absent), AutoMod (jax absent)"),
         technique="TLA+ exact adjoint identities / Jacobians / perturbation derivatives checked by TLC and compared with the modules; exact-difference adjoint identity for affine modules",
         design="9/C01"),
 }
